@@ -5,6 +5,7 @@ import hashlib, json, math, os, pickle, random, sys, time, traceback, copy as _c
 from common import (fkey, fbits, enc_pos, enc_ints, enc_keys, Driver, WORK, REPO, HERE, SEED)
 import lib
 
+RUN_TIMEOUT_S = float(os.environ.get('VERIF_RUN_TIMEOUT', '20'))
 SWARM = {'PSO', 'AIWPSO', 'RPSO'}
 KINDS = ['ABC', 'AIWPSO', 'BA', 'BHA', 'CS', 'FA', 'FPA', 'GP', 'GSA', 'HC', 'HS', 'IHS', 'PSO', 'RPSO', 'SA',
          'SCA', 'WCA']
@@ -534,6 +535,12 @@ def record_run(cfg):
     task = L['Opytimizer'](space=sp, optimizer=opt, function=fn)
     rec['hp0'] = hp_snapshot(opt)
     REC.active = True
+    import signal
+
+    def on_alarm(signum, frame):
+        raise TimeoutError(f'run exceeded {RUN_TIMEOUT_S} s')
+    old_handler = signal.signal(signal.SIGALRM, on_alarm)
+    signal.setitimer(signal.ITIMER_REAL, RUN_TIMEOUT_S)
     try:
         rec['init'] = snapshot(L)
         t0 = time.time()
@@ -546,7 +553,9 @@ def record_run(cfg):
         rec['space'] = sp
         rec['opt'] = opt
         rec['fn'] = fn
-    except Exception as ex:
+    except BaseException as ex:
+        if isinstance(ex, (KeyboardInterrupt, SystemExit)):
+            raise
         tb = traceback.extract_tb(ex.__traceback__)
         frames = [(os.path.basename(fr.filename), fr.name, fr.lineno) for fr in tb]
         rec['error'] = dict(phase='run', type=type(ex).__name__, msg=str(ex)[:300], frames=frames[-4:])
@@ -555,6 +564,8 @@ def record_run(cfg):
         except Exception:
             rec['final'] = None
     finally:
+        signal.setitimer(signal.ITIMER_REAL, 0)
+        signal.signal(signal.SIGALRM, old_handler)
         REC.active = False
     rec['adv_hits'] = REC.adv_hits
     return rec
